@@ -2,6 +2,9 @@
 (* Lattice enumeration for Rhumb / RhumbLine (C09).  root -> chunk c -> vectors.   *)
 (*   <<"li", lat1, k1, lat2, k2, d>>   inverse problem (lat1, k1) -> (lat2, k2 + d ulp)           *)
 (*   <<"ld", lat1, k1, azi, s>>        direct problem / line position, s in degrees of arc       *)
+(*   <<"lp", lat1, k1, azi, sa, sb>>   two positions sa, sb on ONE line object (the second is observed)       *)
+(*   <<"lm", lat1, k1, azi, s, form, m>>     one call form of the direct problem with output mask m *)
+(*   <<"im", lat1, k1, lat2, k2, d, form, m>> one call form of the inverse problem with mask m      *)
 (* TLC checks the invariants below on the MODEL (consistency of my reading of the documentation)  *)
 (* and emits every vector; the driver replays them on the real Rhumb / RhumbLine.                 *)
 EXTENDS RhumbLattice, TLC, Json
@@ -28,7 +31,7 @@ Azis == IF Dense THEN {0, 60, 90, 120, 180, -60, -90, -120, -180, 240, 270, 360,
         ELSE {0, 60, 90, 120, 180, -60, -90, -120, -180, 270, 420}
 Dists == IF Dense THEN {0, 1, 2, 10, 30, 60, 88, 90, 92, 120, 178, 180, 182, 270, 358, 360, 362, 540, 720}
          ELSE {0, 1, 2, 30, 60, 90, 120, 178, 180, 182, 270, 360, 362, 540}
-DK1s == IF Dense THEN {0, 170, -180, 540} ELSE {0, 170}
+DK1s == IF Dense THEN {0, 170, -180, 540} ELSE {0, 170, 540}
 VecLd(C) ==
   \E i \in InChunk(0..10, C), k1 \in DK1s, azi \in Azis, s0 \in Dists, sg \in {-1, 1} :
     LET lat1 == LatSeq[i + 1]
@@ -37,12 +40,57 @@ VecLd(C) ==
        /\ OnLattice(azi, s)
        /\ v' = <<"ld", lat1, k1, azi, s>>
 
+(* Call forms x output masks.  The general routines with every one of the 64 masks on problems  *)
+(* that span the classes of the model (regular, ending at / beyond a pole, leaving a pole, zero *)
+(* distance, wrapped and unwrapped longitudes); every overload on a wider set of problems.      *)
+LmLats == IF Dense THEN {-90, -30, 0, 60, 89, 90} ELSE {-90, 0, 60}
+LmK1s == IF Dense THEN {0, 170, -180, 540} ELSE {170, 540}
+LmAzis == IF Dense THEN {0, 60, 90, -120, 180, 420} ELSE {0, 90, -120}
+LmDists == IF Dense THEN {0, 2, 30, 120, 182, 360} ELSE {0, 120, 182, 360}
+\* all 64 masks where the start longitude makes the wrapped and the unrolled lon2 differ (quick: on one azimuth per latitude)
+LmAllMasks(lat1, k1, azi, s) == (Dense /\ k1 \in {170, 540}) \/ (k1 = 540 /\ azi = (IF lat1 = 0 THEN 90 ELSE -120))
+VecLm(C) ==
+  \E lat1 \in LmLats, k1 \in LmK1s, azi \in LmAzis, s0 \in LmDists, sg \in {-1, 1}, form \in DirectForms :
+    LET s == sg * s0 IN
+    /\ (s0 = 0 => sg = 1) /\ (sg = -1 => s0 \in {120, 360})
+    /\ OnLattice(azi, s)
+    /\ \E m \in InChunk(0..63, C) :
+         /\ IF General(form) THEN LmAllMasks(lat1, k1, azi, s) \/ m \in {0, 19, 31, 51, 63} \/ MaskSet(m) \in {{BLAT}, {BLON}, {BAREA}, {BLON, BUNROLL}}
+            ELSE m = MaskNum(Args(form))
+         /\ v' = <<"lm", lat1, k1, azi, s, form, m>>
+
+(* A RhumbLine is an immutable value ("RhumbLine facilitates the determination of a series of   *)
+(* points on a single rhumb line"): Position is a function of the line and s12 alone.  The      *)
+(* vector asks for sb after sa on the same object and on a copy of it; the model answer is the   *)
+(* answer of the ld problem (lat1, k1, azi, sb) whatever sa was (invariant LpInv).               *)
+LpDists == IF Dense THEN {0, 2, 30, 120, 182, 360, -120, -360} ELSE {0, 120, 182, -360}
+VecLp(C) ==
+  \E lat1 \in LmLats, k1 \in LmK1s, azi \in LmAzis, sa \in LpDists, sb \in LpDists :
+    /\ ((lat1 + 90) + (sa + 360)) % NChunks = C
+    /\ OnLattice(azi, sa) /\ OnLattice(azi, sb)
+    /\ v' = <<"lp", lat1, k1, azi, sa, sb>>
+
+ImLats1 == IF Dense THEN {-90, -30, 0, 60, 90} ELSE {-90, 0, 30}
+ImLats2 == IF Dense THEN {-90, -1, 0, 30, 90} ELSE {0, 30, 90}
+ImK1s == IF Dense THEN {0, -170, 350} ELSE {-170}
+ImDiffs == IF Dense THEN {0, 50, -90, 180, -180, 360} ELSE {0, 50, -180}
+ImAllMasks(lat1, lat2, D) == Dense \/ D = 50 \/ (lat1 = lat2)
+VecIm(C) ==
+  \E lat1 \in ImLats1, lat2 \in ImLats2, k1 \in ImK1s, D \in ImDiffs, form \in InverseForms :
+    \E m \in InChunk(0..63, C) :
+      /\ IF General(form) THEN ImAllMasks(lat1, lat2, D) \/ m \in {0, 28, 31, 63} \/ MaskSet(m) \in {{BDIST}, {BAZI}, {BAREA}}
+         ELSE m = MaskNum(Args(form))
+      /\ v' = <<"im", lat1, k1, lat2, k1 + D, 0, form, m>>
+
 Init == v = <<"root">>
 Next ==
   \/ v = <<"root">> /\ \E c \in 0..(NChunks - 1) : v' = <<"chunk", c>>
   \/ /\ v[1] = "chunk"
      /\ CASE Part = "li" -> VecLi(v[2])
           [] Part = "ld" -> VecLd(v[2])
+          [] Part = "lp" -> VecLp(v[2])
+          [] Part = "lm" -> VecLm(v[2])
+          [] Part = "im" -> VecIm(v[2])
 
 (* ------------------------------ model invariants ------------------------- *)
 \* the inverse model: extent, tie rule, exchange of the end points
@@ -97,6 +145,45 @@ LdInv ==
             /\ p # <<>> /\ p[1] <= Abs(s) * 1000
             /\ (Abs(dl) < 180 => p = PInt(Abs(s)) /\ (s # 0 => AziClass(lat1, lat1, l) = (IF dl > 0 THEN "E" ELSE "W")))
             /\ (\A x \in NormSet(k1 + dl) : x \in -180..180 /\ (x - (k1 + dl)) % 360 = 0)
+
+\* masks and call forms: what is written, which form of lon2, overload == general call with its documented mask
+MaskInv ==
+  v[1] \in {"lm", "im"} =>
+    LET form == IF v[1] = "lm" THEN v[6] ELSE v[7]
+        m == IF v[1] = "lm" THEN v[7] ELSE v[8]
+        W == Written(form, m)
+        g == GeneralOf(form)
+    IN /\ form \in (IF v[1] = "lm" THEN DirectForms ELSE InverseForms)
+       /\ m \in 0..63 /\ MaskNum(MaskSet(m)) = m
+       \* only arguments of the form are written, and only quantities of the family
+       /\ W \subseteq Args(form) /\ W \subseteq Outputs(form) /\ W \subseteq FormMask(form, m)
+       \* an overload sets every one of its output arguments, wraps lon2, and is the general call with that mask
+       /\ (~General(form) => /\ W = Args(form) /\ ~Unrolled(form, m) /\ m = MaskNum(Args(form))
+                              /\ W = Written(g, m) /\ Unrolled(g, m) = FALSE)
+       \* ALL requests every output of either family and does not unroll; LONG_UNROLL adds no output
+       /\ Written(g, MaskNum(AllMask)) = Outputs(g) /\ ~Unrolled(g, MaskNum(AllMask))
+       /\ (General(form) => /\ Written(form, MaskNum(MaskSet(m) \cup {BUNROLL})) = W
+                             /\ Written(form, MaskNum(MaskSet(m) \ {BUNROLL})) = W
+                             /\ Unrolled(form, m) = (BUNROLL \in MaskSet(m))
+                             \* the bits of the other family are without effect
+                             /\ Written(form, MaskNum(MaskSet(m) \cap (Outputs(form) \cup {BUNROLL}))) = W
+                             \* monotone: requesting more never writes less
+                             /\ \A b \in MaskBits : W \subseteq Written(form, MaskNum(MaskSet(m) \cup {b})))
+       \* GenDirect and GenPosition are the same function of the mask
+       /\ (v[1] = "lm" => Written("GenDirect", m) = Written("GenPosition", m))
+       \* the problem itself is a vector of the ld / li lattice (its full-mask answer is judged there)
+       /\ (v[1] = "lm" => OnLattice(v[4], v[5]) /\ Reflect(Mu2(v[2], v[4], v[5])) \in -90..90)
+       /\ (v[1] = "im" => Lon12(v[3], v[5], v[6])[1] \in -180..180)
+
+\* the second position on a line does not depend on the first (the model has no state to carry)
+LpInv ==
+  v[1] = "lp" =>
+    LET lat1 == v[2]  azi == v[4]  sa == v[5]  sb == v[6] IN
+    /\ \A x \in LpDists : OnLattice(azi, x) =>
+          /\ Mu2(lat1, azi, sb) = Mu2(lat1, azi, x) + Mu2(0, azi, sb - x)          \* additive along the line
+          /\ DirClass(lat1, azi, sb) \in {"reg", "cross", "edge", "polestart"}
+    \* going out sa and on to sb is the same point of the meridian circle as going sb at once
+    /\ Reflect(Mu2(lat1, azi, sa) + Mu2(0, azi, sb - sa)) = Reflect(Mu2(lat1, azi, sb))
 
 Emit == v[1] \notin {"root", "chunk"} => PrintT(ToJson(v))
 =============================================================================
